@@ -606,9 +606,153 @@ def _r5(model, rep):
             rep.ok(R5, f"{name}:doflocs-entities",
                    f"{total} locations lie on the entities their block "
                    f"position names")
+        # a single DOF on a shared edge / facet: both cells sharing the
+        # entity map *their* reference location to the same point only if it
+        # is invariant under renumbering the entity's vertices - the centroid
+        asym = None
+        nsym = 0
+        for i, loc in enumerate(e.doflocs):
+            if any(isinstance(x, ModRef) for x in loc):
+                continue
+            kind, ent, row = e.entity_of(i)
+            if kind not in ("edge", "facet") or rd.dim < 2 or \
+                    e.counts[f"{kind}_dofs"] != 1:
+                continue
+            vs = rd.edges[ent] if kind == "edge" else rd.facets[ent]
+            vs = list(dict.fromkeys(vs))     # padded facets repeat a vertex
+            cen = tuple(sum(Fraction(rd.p[v][d]) for v in vs) / len(vs)
+                        for d in range(rd.dim))
+            nsym += 1
+            if tuple(Fraction(x) for x in loc) != cen and asym is None:
+                asym = (i, kind, ent, loc, cen)
+        if asym:
+            i, kind, ent, loc, cen = asym
+            rep.fail(R5, path, name, f"{name}:doflocs-symmetric",
+                     f"the only DOF of {kind} {ent} (local {i}) is located "
+                     f"at {tuple(map(str, loc))}, not at the centroid "
+                     f"{tuple(map(str, cen))} of the {kind}: the two cells "
+                     f"sharing the {kind} number its vertices differently "
+                     f"and compute different locations for the same global "
+                     f"DOF (the location table then holds the value of "
+                     f"whichever cell wrote last; for a facet of a "
+                     f"tetrahedron the point even lies on a second facet)",
+                     line)
+        elif nsym:
+            rep.ok(R5, f"{name}:doflocs-symmetric",
+                   f"{nsym} single edge / facet DOFs sit at the centroid of "
+                   f"their entity")
     if n < 35:
         raise AnalysisError(f"only {n} element classes with literal doflocs "
                             f"audited")
+
+
+def _condensed_tables(model, rep):
+    """Element.condensed() returns the interior part of an element as a copy
+    whose vertex / edge / facet counts are zero and whose gbasis shifts the
+    local index by the number K of non-interior functions.  The tables that
+    are indexed in parallel with the local functions have to be shifted
+    alike: doflocs by K rows, dofnames by the per-entity counts; and for a
+    wrapper element (components ``elems`` / ``elem``) the components of the
+    interior part are the interior parts of the components - a component
+    copy with zeroed counts still serves its *first* functions (vertex hats)
+    under the indices of the bubbles."""
+    R5 = "C04-R5"
+    fn = model.cls("skfem.element.element", "Element").methods.get(
+        "condensed")
+    if fn is None:
+        raise AnalysisError("Element.condensed not found")
+    zeroed = {src(n.targets[0].value) for n in walk_no_nested(fn.node)
+              if isinstance(n, ast.Assign) and isinstance(
+                  n.targets[0], ast.Attribute)
+              and n.targets[0].attr == "nodal_dofs" and isinstance(
+                  n.value, ast.Constant) and n.value.value == 0
+              and isinstance(n.targets[0].value, ast.Name)}
+    if len(zeroed) != 1:
+        raise AnalysisError(f"Element.condensed: interior copy not "
+                            f"identified ({sorted(zeroed)})")
+    ei = zeroed.pop()
+    local = {n.targets[0].id: n.value for n in walk_no_nested(fn.node)
+             if isinstance(n, ast.Assign) and isinstance(
+                 n.targets[0], ast.Name)}
+
+    def inline(e):
+        t = src(e)
+        if isinstance(e, ast.Name) and e.id in local:
+            return inline(local[e.id])
+        if isinstance(e, ast.Call) and src(e.func) == "int" and e.args:
+            return inline(e.args[0])
+        return t
+    shifts = [n for g in ast.walk(fn.node) if isinstance(g, ast.FunctionDef)
+              and g is not fn.node for n in ast.walk(g)
+              if isinstance(n, ast.BinOp) and isinstance(n.op, ast.Add)
+              and isinstance(n.left, ast.Name) and n.left.id == "i"]
+    if len(shifts) != 1:
+        raise AnalysisError("Element.condensed: index shift of the interior "
+                            "gbasis not found")
+    shift = inline(shifts[0].right)
+    stores = {n.targets[0].attr: n for n in walk_no_nested(fn.node)
+              if isinstance(n, ast.Assign) and isinstance(
+                  n.targets[0], ast.Attribute)
+              and src(n.targets[0].value) == ei}
+
+    def lower_of(n, table):
+        v = n.value
+        if isinstance(v, ast.Subscript) and src(v.value) == f"self.{table}" \
+                and isinstance(v.slice, ast.Slice) and v.slice.upper is None \
+                and v.slice.lower is not None:
+            return v.slice.lower
+        return None
+    d = stores.get("doflocs")
+    lo = lower_of(d, "doflocs") if d is not None else None
+    _ok = lo is not None and inline(lo) == shift
+    cons = "Element.condensed:doflocs"
+    if _ok:
+        rep.ok(R5, cons, f"the interior part takes the rows of doflocs from "
+               f"{shift} on: the shift of its gbasis")
+    else:
+        rep.fail(R5, fn.path, "Element.condensed", cons,
+                 f"the interior part serves function i + {shift} under local "
+                 f"index i but "
+                 f"{'keeps the whole location table' if d is None else 'takes ' + src(d.value)[:50]}"
+                 f": Basis(mesh, ei).doflocs lists vertex (edge, facet) "
+                 f"locations for the interior DOFs", (d or fn).lineno)
+    d = stores.get("dofnames")
+    lo = lower_of(d, "dofnames") if d is not None else None
+    attrs = sorted(x.attr for x in ast.walk(lo) if isinstance(
+        x, ast.Attribute) and src(x.value) == "self") if lo is not None \
+        else []
+    plain = lo is not None and all(isinstance(
+        x, (ast.BinOp, ast.Add, ast.Attribute, ast.Name, ast.Load))
+        for x in ast.walk(lo))
+    cons = "Element.condensed:dofnames"
+    if plain and attrs == ["edge_dofs", "facet_dofs", "nodal_dofs"]:
+        rep.ok(R5, cons, "the interior part drops the names of the vertex, "
+               "edge and facet DOFs")
+    else:
+        rep.fail(R5, fn.path, "Element.condensed", cons,
+                 f"the interior part "
+                 f"{'keeps the whole list of DOF names' if d is None else 'takes ' + src(d.value)[:50]}"
+                 f": its interior DOFs carry the names of vertex DOFs "
+                 f"(get_dofs(...).all('NA') finds nothing)",
+                 (d or fn).lineno)
+    for attr, what in (("elems", "tuple of the components' interior parts"),
+                       ("elem", "interior part of the wrapped element")):
+        d = stores.get(attr)
+        cons = f"Element.condensed:components[{attr}]"
+        okc = d is not None and any(
+            isinstance(x, ast.Subscript) and isinstance(x.value, ast.Call)
+            and isinstance(x.value.func, ast.Attribute)
+            and x.value.func.attr == "condensed" and src(x.slice) == "0"
+            for x in ast.walk(d.value))
+        if okc:
+            rep.ok(R5, cons, f"{ei}.{attr} is the {what}")
+        else:
+            rep.fail(R5, fn.path, "Element.condensed", cons,
+                     f"the components ({attr}) of the interior part are "
+                     f"copies with zeroed counts, not the interior parts of "
+                     f"the components: used on their own (Basis.split) "
+                     f"their function 0 is a vertex function, not the first "
+                     f"interior one", (d or fn).lineno)
 
 
 class _IntVec:
@@ -832,6 +976,7 @@ def run(model: Model, rep, tier: str) -> None:
     _r1(model, rep, order)
     _r4(model, rep)
     _r5(model, rep)
+    _condensed_tables(model, rep)
     _r6(model, rep, tuple(order))
     rep.rule("C04-R7", "a basis numbers its DOFs with a Dofs object built "
              "for its own mesh and element, or the one supplied")
@@ -856,6 +1001,26 @@ _FACET_BLK = """        if counts[2] > 0:
             ns += sum([tmp for j in range(int(counts[2] / len(tmp)))], [])
 """
 MUTANTS = [
+    ("interior part of a condensed element keeps the whole location table",
+     ("skfem/element/element.py",
+      "            ei.doflocs = self.doflocs[self._bfun_counts()[:3].sum():]",
+      "            ei.doflocs = self.doflocs"), "C04-R5"),
+    ("interior part of a condensed element drops the vertex names only",
+     ("skfem/element/element.py",
+      "        ei.dofnames = self.dofnames[(self.nodal_dofs\n"
+      "                                     + self.facet_dofs\n"
+      "                                     + self.edge_dofs):]",
+      "        ei.dofnames = self.dofnames[self.nodal_dofs:]"), "C04-R5"),
+    ("tetrahedral Raviart-Thomas DOFs located at edge midpoints",
+     ("skfem/element/element_tet/element_tet_rt1.py",
+      "    doflocs = np.array([[1 / 3, 1 / 3, .0],\n"
+      "                        [1 / 3, .0, 1 / 3],",
+      "    doflocs = np.array([[.5, .5, .0],\n"
+      "                        [.5, .0, .5],"), "C04-R5"),
+    ("Crouzeix-Raviart triangle DOF off the edge midpoint",
+     ("skfem/element/element_tri/element_tri_cr.py",
+      "    doflocs = np.array([[.5, 0.],", "    doflocs = np.array([[.25, 0.],"),
+     "C04-R5"),
     ("edge DOFs exist when the element has three components",
      ("skfem/assembly/dofs.py",
       "        if topo.dim() == 3 and element.edge_dofs > 0:\n"
@@ -946,6 +1111,11 @@ MUTANTS = [
      "C04-R5"),
 ]
 TWINS = [
+    ("condensed element names the number of skeleton functions first",
+     ("skfem/element/element.py",
+      "            ei.doflocs = self.doflocs[self._bfun_counts()[:3].sum():]",
+      "            ei.doflocs = self.doflocs[int(self._bfun_counts()[:3]"
+      ".sum()):]")),
     ("a block numbered in C order (numbers stay gap-free and shared)",
      (_D, "            (element.facet_dofs, topo.nfacets),\n"
       "                order='F') + offset",
